@@ -273,7 +273,7 @@ pub fn decode_reader(
 		ReaderKind::BufReader { cap, plan } => {
 			let mut src = SimSource::new(bytes, plan.clone()).with_faults(faults.to_vec()).with_step_budget(step_budget(bytes.len(), &limits));
 			let (r, callbacks, max_depth, buffered) = {
-				let br = std::io::BufReader::with_capacity(*cap, &mut src);
+				let br = std::io::BufReader::with_capacity((*cap).max(1), &mut src);
 				let mut rr = ReaderRead::new(br);
 				rr.max_alloc_size = limits.max_alloc_size;
 				let mut st = DeserializerState::with_config(rr, config);
